@@ -81,6 +81,12 @@ struct Graph {
 	void reset_path() { pos = 0; path.clear(); pre.clear(); }
 	uint32_t mk(Op op, Kind k, uint32_t a = 0, uint32_t b = 0, uint32_t c = 0, uint64_t bits = 0, Kind k2 = NKIND) {
 		Node n{op, k, k2, a, b, c, bits};
+		if (op != VAR && op != CST) {   // operands must be existing nodes: anything else is a value read before it was written
+			uint32_t lim = (uint32_t)nodes.size(); bool bad = a >= lim;
+			if ((op >= ADD && op <= LDEXP) || (op >= LT && op <= NE) || op == LAND || op == LOR || op == FMA) bad = bad || b >= lim;
+			if (op == FMA) bad = bad || c >= lim;
+			if (bad) throw Untraceable("uninitialised value used as an operand");
+		}
 		auto it = cons.find(n);
 		if (it != cons.end()) return it->second;
 		uint32_t id = (uint32_t)nodes.size();
